@@ -105,7 +105,7 @@ class PointEngine(Engine):
                        'atomman.core.System / Atoms / Box', 'atomman.core.dvect (compiled from the current tree)']
     stub_components = ['the caller (insertion order, selection method, refused and ill-formed calls, scribbles)']
     assumptions = ['exception classes are not part of the statement', 'masses are not carried by the defect generators and are not checked',
-                   'old_id of ADDED atoms is not specified by the statement and is not checked beyond being present']
+                   'old_id of ADDED atoms is not specified by the statement beyond not colliding with another atom\'s (an identifying index is unique)']
 
     # ------------------------------------------------------------------
     def config(self, ctx):
@@ -507,6 +507,13 @@ class PointEngine(Engine):
             if row['orig'] is not None and int(old_id[j]) != row['orig']:
                 raise Violation('C15.P3', {'what': 'old_id does not identify the atom of the first system', 'row': j, 'got': int(old_id[j]),
                                            'want': row['orig'], 'kind': kind, 'had_old_id': inp.has_old_id}, klass='old_id/' + kind)
+        # P3: an index that identifies atoms is not handed out twice (an added atom must not carry the old
+        # index of a surviving atom)
+        vals = [int(v) for v in old_id]
+        if len(set(vals)) != len(vals):
+            dup = sorted({v for v in vals if vals.count(v) > 1})
+            raise Violation('C15.P3', {'what': 'old_id is not unique: an added atom carries the old index of a surviving atom',
+                                       'duplicates': dup[:5], 'kind': kind, 'old_id': vals[-6:]}, klass='old_id/dup/' + kind)
         # P5 no sharing between result and input
         for k2 in inp.real.atoms.view:
             if k2 in res.atoms.view and np.shares_memory(res.atoms.view[k2], inp.real.atoms.view[k2]):
